@@ -179,8 +179,6 @@ Qed.
 (* ---------------------------------------------------------------------------------------------- *)
 (* Machine updates                                                                                  *)
 (* ---------------------------------------------------------------------------------------------- *)
-Definition same_frame (m0 m : pmachine) : Prop :=
-  pm_width m = pm_width m0 /\ pm_height m = pm_height m0 /\ pm_dead m = pm_dead m0.
 
 Lemma same_frame_refl : forall m, same_frame m m.
 Proof. intros m. repeat split. Qed.
@@ -279,23 +277,8 @@ Qed.
 (* ---------------------------------------------------------------------------------------------- *)
 (* The bookkeeping invariant                                                                        *)
 (* ---------------------------------------------------------------------------------------------- *)
-Record wf_core (vr : vresources) (m0 : pmachine) : Prop := {
-  wc_nodup : NoDup (map fst vr);
-  wc_nonneg : forall v d r q, In (v, d) vr -> In (r, q) d -> 0 <= q;
-  wc_known : forall v d r q, In (v, d) vr -> In (r, q) d -> resource_known m0 r }.
 
-Record Inv (vr : vresources) (m0 : pmachine) (done : list pconstr) (m : pmachine) (pl : placement) : Prop := {
-  inv_frame : same_frame m0 m;
-  inv_keys : forall c, live m0 c = true -> map fst (chip_res m c) = map fst (chip_res m0 c);
-  inv_le : forall c r, live m0 c = true -> In r (map fst (chip_res m0 c)) ->
-           rget r (chip_res m c) + reserved done c r + load vr pl c r <= rget r (chip_res m0 c);
-  inv_nonneg : forall c r q, live m0 c = true -> In (r, q) (chip_res m c) -> 0 <= q;
-  inv_exc_nodup : NoDup (map fst (pm_exc m)) }.
 
-Record PlInv (vr : vresources) (m0 : pmachine) (pl : placement) : Prop := {
-  pi_nodup : NoDup (map fst pl);
-  pi_live : forall v c, zassoc v pl = Some c -> live m0 c = true;
-  pi_known : forall v, In v (map fst pl) -> In v (map fst vr) }.
 
 Lemma PlInv_set : forall vr m0 pl v c,
   PlInv vr m0 pl -> live m0 c = true -> In v (map fst vr) -> PlInv vr m0 (pl_set v c pl).
